@@ -156,6 +156,32 @@ func ZZ_C14_MergeAlgebra() {
 	zzvf.Reach("mergealgebra")
 }
 
+// the result of a merge never shares registers with an input — also for Merge() with no
+// argument (a copy): later offers to the result leave the inputs as they were, and later
+// offers to an input leave the result as it was
+//vf: qtimeout=30s deadline=8m
+func ZZ_C14_MergeNoAlias() {
+	p := zzPrecSmall()
+	x, y := zzState(p), zzState(p)
+	xr, yr := zzRegs(x), zzRegs(y)
+	var m *HyperLogLog
+	if zzvf.Choose(2) == 0 {
+		m = x.Merge()
+		zzvf.Assert(zzvf.Same(zzRegs(m), xr), "merge/no-argument-is-a-copy")
+	} else {
+		m = x.Merge(y)
+	}
+	mr := zzRegs(m)
+	m.offerHashed(zzvf.Uint32())
+	zzvf.Assert(zzvf.And(zzvf.Same(zzRegs(x), xr), zzvf.Same(zzRegs(y), yr)), "merge/later-offers-to-the-result-leave-inputs-untouched")
+	m2 := x.Merge()
+	m2r := zzRegs(m2)
+	x.offerHashed(zzvf.Uint32())
+	zzvf.Assert(zzvf.Same(zzRegs(m2), m2r), "merge/later-offers-to-an-input-leave-the-result-untouched")
+	_ = mr
+	zzvf.Reach("mergenoalias")
+}
+
 // inductive form of "merge equals union": offering an item commutes with merging, from
 // ARBITRARY states (with the merge algebra this gives merge(offer-all(A), offer-all(B)) ==
 // offer-all(A u B) for sets of any size, by induction on |A| — stated, not mechanised)
